@@ -35,6 +35,7 @@ type vec struct {
 	Mode   string `json:"mode"`
 	Path   string `json:"path"`
 	Expect []any  `json:"expect"`
+	Stream string `json:"stream"`
 }
 
 type out struct {
@@ -129,9 +130,25 @@ func run(t *wirecodec.Table, v *vec, o *out) {
 	srv := p9.NewServer(&puppet.Attacher{C: auto.C})
 	desc := fmt.Sprintf("%s path, chunks %v, end of stream %s", v.Path, v.Chunks, v.Mode)
 	// the stream under test
-	stream := t.Encode("Twrite", 11, wirecodec.Values{"fid": 2, "offset": 9, "data": payload})
-	stream = append(stream, t.Encode("Tclunk", 12, wirecodec.Values{"fid": 3})...)
-	stream = append(stream, t.Encode("Tgetattr", 13, wirecodec.Values{"fid": 1, "request_mask": []string{"mode"}})...)
+	var stream []byte
+	names := map[uint16]string{11: "Rwrite", 12: "Rclunk", 13: "Rgetattr"}
+	order := []uint16{11, 12, 13}
+	if v.Stream == "B" {
+		// a frame of an unregistered type (body of 33 bytes, tag 10): rejected with Rlerror, body discarded
+		stream = []byte{40, 0, 0, 0, 200, 10, 0}
+		for i := 0; i < 33; i++ {
+			stream = append(stream, byte(0xA0+i))
+		}
+		stream = append(stream, t.Encode("Twrite", 11, wirecodec.Values{"fid": 2, "offset": 9, "data": payload})...)
+		stream = append(stream, t.Encode("Tgetattr", 13, wirecodec.Values{"fid": 1, "request_mask": []string{"mode"}})...)
+		names = map[uint16]string{10: "Rlerror", 11: "Rwrite", 13: "Rgetattr"}
+		order = []uint16{10, 11, 13}
+		desc = "stream B (unknown-type frame, Twrite, Tgetattr), " + desc
+	} else {
+		stream = t.Encode("Twrite", 11, wirecodec.Values{"fid": 2, "offset": 9, "data": payload})
+		stream = append(stream, t.Encode("Tclunk", 12, wirecodec.Values{"fid": 3})...)
+		stream = append(stream, t.Encode("Tgetattr", 13, wirecodec.Values{"fid": 1, "request_mask": []string{"mode"}})...)
+	}
 	nouid := uint64(0xFFFFFFFF)
 	setup := [][]byte{
 		t.Encode("Tversion", 0xFFFF, wirecodec.Values{"msize": 8192, "version": "9P2000.L"}),
@@ -151,7 +168,14 @@ func run(t *wirecodec.Table, v *vec, o *out) {
 		go func() { srv.Handle(cr, peer.WriteEnd{P: back}); close(done) }()
 		send = func(b []byte) {
 			cr.push(b)
-			for cr.pending() > 0 {
+			// (bounded: a receiver that has given the connection up never takes the chunk)
+			dl := time.Now().Add(2 * time.Second)
+			for cr.pending() > 0 && time.Now().Before(dl) {
+				select {
+				case <-done:
+					return
+				default:
+				}
 				time.Sleep(20 * time.Microsecond)
 			}
 		}
@@ -228,7 +252,6 @@ func run(t *wirecodec.Table, v *vec, o *out) {
 			want++
 		}
 	}
-	names := map[uint16]string{11: "Rwrite", 12: "Rclunk", 13: "Rgetattr"}
 	seen := map[uint16]bool{}
 	got := 0
 	ended := false
@@ -266,14 +289,14 @@ func run(t *wirecodec.Table, v *vec, o *out) {
 		}
 		// replies of concurrently served requests may come in any order
 		if names[f.Tag] != f.Name || seen[f.Tag] {
-			o.Findings = append(o.Findings, fmt.Sprintf("%s: unexpected reply %s tag %d; the stream's frames are Twrite(11) Tclunk(12) Tgetattr(13)", desc, f.Name, f.Tag))
+			o.Findings = append(o.Findings, fmt.Sprintf("%s: unexpected reply %s tag %d; the stream's frames answer %v", desc, f.Name, f.Tag, names))
 			return
 		}
 		seen[f.Tag] = true
 		got++
 	}
 	for k := 0; k < got; k++ {
-		if !seen[uint16(11+k)] && got == k+1 {
+		if !seen[order[k]] && got == k+1 {
 			o.Findings = append(o.Findings, fmt.Sprintf("%s: the delivered messages are not a prefix of the stream's frames (%v)", desc, seen))
 			return
 		}
@@ -290,7 +313,7 @@ func run(t *wirecodec.Table, v *vec, o *out) {
 	}
 	mu.Lock()
 	defer mu.Unlock()
-	if want >= 1 {
+	if (v.Stream != "B" && want >= 1) || want >= 2 {
 		if len(writes) != 1 || string(writes[0]) != string(payload) {
 			o.Findings = append(o.Findings, fmt.Sprintf("%s: the backend saw payload(s) %q, the frame carries %q", desc, writes, payload))
 			return
@@ -337,6 +360,9 @@ func main() {
 			continue
 		}
 		run(t, &v, o)
+		if len(o.Findings) > 20 {
+			break
+		}
 		if len(o.Findings) > 25 {
 			break
 		}
